@@ -4,6 +4,9 @@ import (
 	"bytes"
 	"encoding/json"
 	"fmt"
+	"github.com/99designs/gqlgen/graphql/handler/lru"
+	"github.com/vektah/gqlparser/v2/ast"
+	"io"
 	"mime/multipart"
 	"net/http"
 	"net/http/httptest"
@@ -32,9 +35,17 @@ import (
 type RawCase struct {
 	Transport string `json:"transport"` // post get graphql urlencoded sse multipartmixed
 	Body      []byte `json:"body"`      // request body, or the raw query string for get
+	// Twice: the server caches parsed documents and the request is sent twice
+	Twice bool `json:"twice,omitempty"`
 }
 
-var jsonAtoms = []string{"null", "true", "1", "-0", "1e400", `""`, `"x"`, "[]", "{}", "[null]", `{"query":null}`, `{"query":1}`, `{"query":"{ ok }"}`,
+// documents that parse but are not valid against the schema (each for another validation rule)
+var invalidDocs = []string{"{ nosuchfield }", "{ ok { x } }", "{ ...Missing }", "query($v: NoSuchType) { ok }", "{ ok @nosuchdirective }", "{ ok(nosucharg: 1) }",
+	"{ ok ...F } fragment F on NoSuchType { x }", "query($v: Int) { ok } ", "{ ok(n: \"x\") }", "query A { ok } query A { ok }", "subscription { a b }", "{ __typename ... on Query { nope } }"}
+
+var jsonAtoms = []string{`{"query":"{ nosuchfield }"}`, `{"query":"{ ok { x } }"}`, `{"query":"{ ...Missing }"}`, `{"query":"query($v: NoSuchType) { ok }"}`, `{"query":"{ ok @nosuchdirective }"}`,
+	`{"query":"{ ok(nosucharg: 1) }"}`, `{"query":"{ ok ...F } fragment F on NoSuchType { x }"}`, `{"query":"query A { ok } query A { ok }"}`, `{"query":"{ __typename ... on Query { nope } }"}`,
+	"null", "true", "1", "-0", "1e400", `""`, `"x"`, "[]", "{}", "[null]", `{"query":null}`, `{"query":1}`, `{"query":"{ ok }"}`,
 	`{"query":"{ ok }","variables":null}`, `{"query":"{ ok }","variables":[]}`, `{"query":"{ ok }","variables":"x"}`, `{"query":"{ ok }","variables":{"a":{"b":[1,{"c":null}]}}}`,
 	`{"query":"{ ok }","operationName":null}`, `{"query":"{ ok }","operationName":5}`, `{"query":"{ ok }","extensions":null}`, `{"query":"{ ok }","extensions":[1]}`,
 	`{"query":"{ ok }","extensions":{"persistedQuery":null}}`, `{"query":"{ ok }","extensions":{"persistedQuery":{"version":"x"}}}`, `{"query":"{ ok }","headers":{"a":["b"]}}`,
@@ -123,6 +134,9 @@ func checkRaw(c RawCase) *vfrun.Failure {
 	}
 	var recovers atomic.Int64
 	h := hsrv.New(s, hsrv.Config{Recovers: &recovers})
+	if c.Twice {
+		h.SetQueryCache(lru.New[*ast.QueryDocument](64))
+	}
 	var req *http.Request
 	switch c.Transport {
 	case "get":
@@ -150,6 +164,25 @@ func checkRaw(c RawCase) *vfrun.Failure {
 	s.U.SetExec(e)
 	res, escaped := serve(h, req)
 	what := fmt.Sprintf("%s %q", c.Transport, c.Body)
+	if c.Twice && escaped == nil && recovers.Load() == 0 {
+		// the same bytes again, on a server that caches parsed documents (as NewDefaultServer does):
+		// what was refused the first time must not be let through - or crash - the second time
+		req2 := req.Clone(req.Context())
+		req2.Body = io.NopCloser(bytes.NewReader(c.Body))
+		if c.Transport == "get" {
+			req2.Body = nil
+		}
+		res2, escaped2 := serve(h, req2)
+		what += " (sent twice, query cache)"
+		if escaped2 != nil {
+			res, escaped = res2, escaped2
+		} else if recovers.Load() != 0 || res2.Status != res.Status {
+			if recovers.Load() == 0 {
+				return vfrun.Failf("malformed.second-answer-differs", "%s: first answer %d %q, second %d %q", what, res.Status, res.Body, res2.Status, res2.Body)
+			}
+			res = res2
+		}
+	}
 	isNull := strings.TrimSpace(string(c.Body)) == "null"
 	if escaped != nil {
 		return vfrun.Failf("malformed.panic-escaped-handler", "%s: panic escaped ServeHTTP: %v", what, escaped)
@@ -181,7 +214,7 @@ func TestRaw(t *testing.T) {
 				switch rapid.IntRange(0, 2).Draw(t, "gk") {
 				case 0:
 					q := url.Values{}
-					q.Set("query", rapid.SampledFrom([]string{"{ ok }", "{", "", "query($n:Int){ ok(n:$n) }"}).Draw(t, "q"))
+					q.Set("query", rapid.SampledFrom(append([]string{"{ ok }", "{", "", "query($n:Int){ ok(n:$n) }"}, invalidDocs...)).Draw(t, "q"))
 					if rapid.Bool().Draw(t, "v") {
 						q.Set("variables", string(genJSONish(t)))
 					}
@@ -197,6 +230,7 @@ func TestRaw(t *testing.T) {
 			} else {
 				c.Body = genJSONish(t)
 			}
+			c.Twice = rapid.Bool().Draw(t, "twice")
 			return c
 		}, Check: checkRaw}, vfrun.N(15000, 1500000))
 }
